@@ -63,7 +63,11 @@ class Gen:
                 kv = [x for x in vars_ if x[0] == 'k']
                 if kv and rng.chance(0.3):
                     # the number of passes given through a variable the body may update: it is read once, on entry
-                    out.append(('loopvar', rng.choice(kv), i, start, step, self.body(depth - 1, vars_ + [i])))
+                    kvar = rng.choice(kv)
+                    b = self.body(depth - 1, vars_ + [i])
+                    if rng.chance(0.6):
+                        b = b + [('var', kvar, ('add', kvar, rng.range(1, 2)))]      # the body changes the variable the count was read from
+                    out.append(('loopvar', kvar, i, start, step, b))
                     continue
                 out.append(('loop', n, i, start, step, self.body(depth - 1, vars_ + [i])))
                 if n > 0 and rng.chance(0.4):      # after the loop the variable keeps the value of the last pass
